@@ -45,7 +45,8 @@ async def _drive(case):
     from frequenz.sdk.timeseries._base_types import Bounds, SystemBounds
 
     base_ts = datetime.now(tz=timezone.utc)
-    W = Power.from_watts
+    M.set_scale(case)
+    W = lambda x: Power.from_watts(x * M.SCALE)
     loop = asyncio.get_running_loop()
     proposals, subs, reqs, results, boundsch = (Broadcast(name=n) for n in "psrxb")
     registry = ChannelRegistry(name="verif")
@@ -232,7 +233,7 @@ def gen_case(rng, maxlen=14):
             evs.append({"t": "sleep", "dt": rng.choice([1, 8, 80, 239, 240, 400, 479, 480, 481, 500])})
     # the priorities of the two report subscriptions: independent numbering per group, so they may coincide
     q = rng.choice([-2, 0, 1, 2, 3, 7])
-    return {"events": evs, "q_reg": q, "q_op": q if rng.random() < 0.4 else rng.choice([-2, 0, 1, 2, 3, 7])}
+    return M.gen_scale(rng, {"events": evs, "q_reg": q, "q_op": q if rng.random() < 0.4 else rng.choice([-2, 0, 1, 2, 3, 7])})
 
 
 def boundary_cases():
@@ -295,6 +296,8 @@ class PMStream(Stream):
 
     def labels(self, case, obs):
         out = [f"events={min(len(case['events']), 23)}"]
+        if case.get("scale", 1) != 1:
+            out.append("fractional_or_scaled_watts")
         out += sorted({"has_" + e["t"] + ("_op" if e.get("op") else "") for e in case["events"]})
         if any(x["e"] == "tick" for x in obs):
             out.append("timer_ticks")
